@@ -346,11 +346,12 @@ def extractor_agreement(ctx, res, cd, roles, out_closure):
     # suffixes appended to the output key by its users
     suffixes = {}
     for fi in (roles.record_output, out_closure):
+        from ..loader import expand_locals as _xl3
         for n in ast.walk(fi.node):
-            if isinstance(n, ast.BinOp) and isinstance(n.op, ast.Add) and isinstance(n.right, ast.Constant) and \
-                    isinstance(n.right.value, str) and isinstance(n.left, ast.Call) and isinstance(n.left.func, ast.Attribute) and \
-                    n.left.func.attr == kb_out.name:
-                suffixes[fi.qualname] = n.right.value
+            if isinstance(n, ast.BinOp) and isinstance(n.op, ast.Add) and isinstance(n.right, ast.Constant) and isinstance(n.right.value, str):
+                left = _xl3(fi.node, n.left) if isinstance(n.left, ast.Name) else n.left      # (through an explaining variable)
+                if isinstance(left, ast.Call) and isinstance(left.func, ast.Attribute) and left.func.attr == kb_out.name:
+                    suffixes[fi.qualname] = n.right.value
     if len(suffixes) != 2:
         raise AnalysisError('anchor-lost role=output key suffixes (found %s)' % suffixes)
     s_entry = suffixes[roles.record_output.qualname]
